@@ -12,11 +12,28 @@ DECODE = 'prost::message::Message::decode'
 REMOVE_FILE = ('std::fs::remove_file', 'tokio::fs::remove_file::remove_file')
 
 
+AW = 'tokio::io::util::async_write_ext::AsyncWriteExt::'
+CLONE_OUT = 'bitar::clone_output::CloneOutput'
+REORDER_OP = 'bitar::chunk_index::ReorderOp'
+
+
+def _ty_mentions(b, ty, adt, depth=0):
+    if ty.get('adt') == adt:
+        return True
+    if depth > 4:
+        return False
+    return any(_ty_mentions(b, b.ty(i), adt, depth + 1) for i in ty.get('args', []))
+
+
 class Balance(Rule):
-    """+1 = a write whose chunk has not been removed from the clone index yet; -1 = a removal not yet used"""
-    def __init__(self, b):
+    """Every chunk written to the output leaves the clone index.  State: 'neutral' | 'credit' (a location was removed from the
+    index and not written yet - feed) | 'owed' (something was written whose removal is still due - the reorder executor).
+    A chunk may be written at several offsets (a loop of writes); what must not happen is that the next reorder operation
+    is fetched, or the function left with success, while a removal is owed."""
+    def __init__(self, b, out_f, idx_f):
         self.b = b
-        self.init = 0
+        self.out_f, self.idx_f = out_f, idx_f
+        self.init = 'neutral'
         self.violations = []
         self.writes = 0
         self.removes = 0
@@ -25,21 +42,30 @@ class Balance(Rule):
         if t['k'] != 'call' or 'q' not in t['callee']:
             return bal
         q = callee_q(t)
-        if q == WRITE_PRIM:
-            self.writes += 1
-            if bal > 0:
-                self.violations.append(('second-write', t['loc']))
-                return bal
-            return 0 if bal < 0 else 1
-        if q == IDX_REMOVE:
+        gq = t['callee']['q']
+        is_write = False
+        if t['args']:
             base = b.base_of(t['args'][0])
-            if any(x[1] == 'clone_index' for x in base[1]):
+            if base and gq.startswith(AW + 'write') and any(x[0] == CLONE_OUT and x[1] == self.out_f for x in base[1]):
+                is_write = True
+        if q == WRITE_PRIM:
+            is_write = True
+        if is_write:
+            self.writes += 1
+            return 'credit' if bal == 'credit' else 'owed'
+        if q == IDX_REMOVE and t['args']:
+            base = b.base_of(t['args'][0])
+            if base and any(x[1] == self.idx_f for x in base[1]):
                 self.removes += 1
-                return 0 if bal > 0 else -1
+                return 'neutral' if bal == 'owed' else 'credit'
+        if gq == 'core::iter::traits::iterator::Iterator::next' and not t['dest']['p'] and _ty_mentions(b, b.lty(t['dest']['l']), REORDER_OP):
+            if bal == 'owed':
+                self.violations.append(('second-write', t['loc']))
+            return 'neutral'
         return bal
 
     def on_exit(self, b, bi, bal, outcome):
-        if outcome in OK_OUTCOMES and bal > 0:
+        if outcome in OK_OUTCOMES and bal == 'owed':
             self.violations.append(('exit', b.blocks[bi]['term']['loc']))
 
 
@@ -53,17 +79,24 @@ def run(facts, cg):
             findings.append({'rule': rule, 'key': key, 'function': b_q, 'what': detail})
 
     # ---------------------------------------------------------------- R-REMOVE-ON-WRITE
-    users = sorted({b.id for (b, bi, t) in cg.calls_to(WRITE_PRIM)})
-    for bid in users:
-        b = facts.bodies[bid]
-        r = Balance(b)
+    from .r_misc import out_field, index_field
+    of, xf = out_field(facts), index_field(facts)
+    users = []
+    for b in facts.bodies.values():
+        if not b.id.startswith('bitar::clone_output::') or b.generated or of is None or xf is None:
+            continue
+        r = Balance(b, of, xf)
         Explorer(b, r).run()
+        if not r.writes:
+            continue
+        if b.q == WRITE_PRIM or b.q.startswith(WRITE_PRIM + '::'):
+            continue            # the primitive itself (while it is a function of its own): its callers carry the obligation
+        users.append(b.id)
         instances.append({'rule': 'R-REMOVE-ON-WRITE', 'function': b.q, 'write_sites': r.writes, 'remove_sites': r.removes})
         for kind, loc in r.violations:
             finding('R-REMOVE-ON-WRITE', b.q, kind, 'a chunk is written to the output without being removed from the clone index (%s at %s)' % (kind, loc))
-        # same hash: every remove's hash argument and every write's chunk argument
     if len(users) < 2:
-        finding('R-REMOVE-ON-WRITE', '-', 'floor', 'expected feed and reorder_in_place to use the write primitive (found %d users)' % len(users))
+        finding('R-REMOVE-ON-WRITE', '-', 'floor', 'expected the seed feed and the reorder executor to write the output (found %d writing functions)' % len(users))
 
     # ---------------------------------------------------------------- R-STOREONCE: a chunk parked in memory is read from the output once
     # The planner emits one StoreInMem per chunk that is about to overwrite R; only the first finds R intact.  Reading R
@@ -132,7 +165,7 @@ def run(facts, cg):
             arg_s = b.base_of(st['args'][1])
             if (recv_s[0], tuple(x[1] for x in recv_s[1])) != (recv_r[0], tuple(x[1] for x in recv_r[1])):
                 finding('R-WIRE', b.q, 'strip-reorder-receiver', 'strip and reorder_ops are called on different indexes')
-            if not any(x[1] == 'clone_index' for x in arg_s[1]) or not any(x[1] == 'clone_index' for x in arg_r[1]):
+            if not any(x[1] == xf for x in arg_s[1]) or not any(x[1] == xf for x in arg_r[1]):
                 finding('R-WIRE', b.q, 'strip-reorder-argument', 'strip/reorder_ops must take the clone index as argument (roles swapped?)')
 
     # ---------------------------------------------------------------- R-DOMINATES header checksum ≺ decode
